@@ -2598,24 +2598,37 @@ main(int argc, char** argv)
   // ORACLE (i): an accepted header object has every table at the announced length (image_tables_check);
   // ORACLE (ii): a header whose size-giving lines come in another order is rejected or gives the members of the writer's order.
   {
-    const int ncanon = thorough ? 900 : 170, nperm = 4;
+    const int ncanon = thorough ? 900 : 150, nperm = 2;
     long accepted = 0, permuted_accepted = 0;
     for (int c = 0; c < ncanon; ++c)
       {
-        const GenHeader g = gen_image_header(rng, false, rng.range(0, 2) == 0);
+        const bool with_faults = rng.range(0, 2) == 0;
+        const GenHeader g = gen_image_header(rng, false, with_faults);
         const std::string canon_text = join_lines(g.lines);
         const HdrResult canon = run_image_header(canon_text);
         emit("hdr image " + hexs(canon_text), canon.answer);
         accepted += canon.accepted;
         ++g_oracle_checks;
+        if (!with_faults && !canon.accepted)
+          oracle_fail("valid Interfile image header (" + std::to_string(g.T) + " time frames, " + std::to_string(g.K) + " data types, keys in the writer's order) is not accepted ("
+                      + canon.answer + "): " + canon_text);
+        ++g_oracle_checks;
         if (canon.accepted && !canon.tables_why.empty())
           oracle_fail("Interfile image header accepted with tables that do not have the announced length (" + canon.tables_why + "): " + canon_text);
-        for (int k = 0; k < nperm; ++k)
+        const std::vector<std::pair<std::string, std::vector<std::string>>> directed = c17::directed_reorders(g.lines);
+        for (int k = 0; k < nperm + static_cast<int>(directed.size()); ++k)
           {
             std::string how;
-            std::vector<std::string> pl = c17::reorder_header(g.lines, rng, how);
+            std::vector<std::string> pl;
+            if (k < nperm)
+              pl = c17::reorder_header(g.lines, rng, how);
+            else
+              {
+                how = directed[k - nperm].first;
+                pl = directed[k - nperm].second;
+              }
             bool type_moved = false;
-            if (rng.range(0, 11) == 0)
+            if (k < nperm && rng.range(0, 11) == 0)
               { // the keys 'PET data type' / 'data offset in bytes' exist only AFTER 'type of data := PET': move that line as well
                 for (std::size_t j = 1; j + 1 < pl.size(); ++j)
                   if (c17::std_key_of(pl[j]) == "type of data")
